@@ -22,6 +22,9 @@ type c16Case struct {
 	Instants []int64 `json:"instants_ns"`
 	// STL only: the programme's start timecode in frames (the GSI TCP field); cue timecodes are relative to it
 	TCPUnits int64 `json:"tcp_frames,omitempty"`
+	// Meta > 0: the list carries metadata that has nothing to do with the rendering of instants (script timer and
+	// resolution, timestamp map, frame rate / language / titles longer than their field)
+	Meta int `json:"meta,omitempty"`
 }
 
 // ceilNs is the instant a reader assigns to u units of 1/perSecond s (rounded up to the next nanosecond).
@@ -106,6 +109,27 @@ func checkC16(c c16Case) string {
 		}
 	default:
 		return "unknown format " + c.Format
+	}
+	if c.Meta > 0 {
+		if s.Metadata == nil {
+			s.Metadata = &astisub.Metadata{}
+		}
+		long := "A title that is a good deal longer than thirty-two bytes, as titles are"
+		switch c.Format {
+		case "ssa":
+			timer := []float64{50, 200, 99.5}[c.Meta%3]
+			s.Metadata.SSATimer = &timer
+			x := 384
+			s.Metadata.SSAPlayResX = &x
+			s.Metadata.Title = long
+		case "vtt":
+			s.Metadata.WebVTTTimestampMap = &astisub.WebVTTTimestampMap{Local: time.Duration(c.Meta) * time.Second, MpegTS: 900000}
+		case "ttml":
+			s.Metadata.Framerate, s.Metadata.Language, s.Metadata.Title = []int{25, 30, 24}[c.Meta%3], astisub.LanguageFrench, long
+		case "stl25", "stl30":
+			s.Metadata.Title, s.Metadata.STLOriginalEpisodeTitle, s.Metadata.STLTranslatorName = long, long, long
+			s.Metadata.STLPublisher, s.Metadata.STLEditorContactDetails = long, long
+		}
 	}
 	var buf bytes.Buffer
 	if err := write(s, &buf); err != nil {
@@ -336,6 +360,20 @@ func TestC16(t *testing.T) {
 					total += len(short)
 				}
 			}
+			if format != "srt" {
+				// the same instants on lists that carry metadata unrelated to timing
+				short := ins
+				if len(short) > 4000 {
+					short = short[:4000]
+				}
+				for meta := 1; meta <= 3; meta++ {
+					mc := c16Case{Format: format, Instants: short, Meta: meta}
+					ev.CaseH(true, mix(strHash(format), uint64(meta), 991), "format-"+format, "unrelated-metadata")
+					ev.AddEvals(len(short) - 1)
+					total += len(short)
+					verdict(t, "C16", "c16", mc, checkC16)
+				}
+			}
 			for len(ins) > 0 {
 				k := 100000
 				if k > len(ins) {
@@ -432,6 +470,10 @@ func TestC16(t *testing.T) {
 				c.TCPUnits = rapid.Int64Range(1, 86400*rate-1).Draw(rt, "tcp")
 			}
 			ev.Label("stl-programme-start-nonzero")
+		}
+		if rapid.IntRange(0, 3).Draw(rt, "meta") == 0 {
+			c.Meta = rapid.IntRange(1, 3).Draw(rt, "metak")
+			ev.Label("unrelated-metadata")
 		}
 		ev.Case(true, fmt.Sprintf("%v", c), "random", "format-"+format)
 		if n <= 2 {
